@@ -201,8 +201,10 @@ def _frac(x):
         return Fraction(int(x))
     if isinstance(x, (float, _np.floating)):
         xf = float(x)
-        if xf != xf or xf in (float("inf"), float("-inf")):
-            raise ValueError("non-finite")
+        if xf != xf:
+            raise ValueError("nan")
+        if xf in (float("inf"), float("-inf")):
+            return xf  # concrete infinity (only ever a concrete bound)
         return Fraction(xf)
     raise TypeError(type(x))
 
@@ -389,12 +391,18 @@ class SymReal:
     @property
     def z(self):
         if self.c is not None:
+            if isinstance(self.c, float):
+                raise UnmodelledDependency("infinite value inside a symbolic term at " + _caller_site())
             return _z3frac(self.c)
         return self._z
 
     @property
     def concrete(self):
         return self.c is not None and self.u is None
+
+    @property
+    def is_inf(self):
+        return isinstance(self.c, float)
 
     # -- coercion
     @staticmethod
@@ -408,8 +416,6 @@ class SymReal:
                 xf = float(x)
                 if xf != xf:
                     return SymReal(Fraction(0), z3.BoolVal(True))
-                if xf in (float("inf"), float("-inf")):
-                    return None
             return SymReal(x)
         return None
 
@@ -420,6 +426,8 @@ class SymReal:
             return NotImplemented
         a, b = (o, self) if swap else (self, o)
         u = _or(a.u, b.u)
+        if a.is_inf or b.is_inf:
+            return _inf_arith(a, b, kind, u)
         if kind == "add":
             if a.c is not None and b.c is not None:
                 return SymReal(a.c + b.c, u)
@@ -531,6 +539,8 @@ class SymReal:
 
     # -- elementary functions (numpy calls these methods on object arrays)
     def sqrt(self):
+        if self.is_inf:
+            return self if self.c > 0 else SymReal(Fraction(0), z3.BoolVal(True))
         if self.c is not None:
             if self.c < 0:
                 return SymReal(Fraction(0), z3.BoolVal(True))
@@ -609,18 +619,18 @@ class SymReal:
     def _cmp(self, other, op):
         o = SymReal.lift(other)
         if o is None:
-            if isinstance(other, (float, _np.floating)):
-                of = float(other)
-                # comparisons with +-inf
-                if of == float("inf"):
-                    res = {"lt": True, "le": True, "gt": False, "ge": False, "eq": False, "ne": True}[op]
-                    return self._guard(SymBool(res))
-                if of == float("-inf"):
-                    res = {"lt": False, "le": False, "gt": True, "ge": True, "eq": False, "ne": True}[op]
-                    return self._guard(SymBool(res))
             return NotImplemented
         u = _or(self.u, o.u)
-        if self.c is not None and o.c is not None:
+        if (self.is_inf or o.is_inf) and not (self.c is not None and o.c is not None):
+            # finite symbolic value against a concrete infinity
+            if o.is_inf:
+                pos = o.c > 0
+                res = {"lt": pos, "le": pos, "gt": not pos, "ge": not pos, "eq": False, "ne": True}[op]
+            else:
+                pos = self.c > 0
+                res = {"lt": not pos, "le": not pos, "gt": pos, "ge": pos, "eq": False, "ne": True}[op]
+            r = SymBool(res)
+        elif self.c is not None and o.c is not None:
             a, b = self.c, o.c
             res = {"lt": a < b, "le": a <= b, "gt": a > b, "ge": a >= b, "eq": a == b, "ne": a != b}[op]
             r = SymBool(res)
@@ -693,6 +703,11 @@ class SymReal:
             return SymBool(False)
         return SymBool(self.u)
 
+    def is_finite(self):
+        if self.is_inf:
+            return SymBool(False)
+        return ~self.is_nan()
+
     # numpy-scalar-like surface (np.float64 results of reductions support these)
     shape = ()
     ndim = 0
@@ -743,6 +758,26 @@ class SymReal:
 
     def mean(self, *a, **k):
         return self
+
+
+def _inf_arith(a, b, kind, u):
+    """arithmetic with a concrete infinity operand"""
+    if a.c is not None and b.c is not None:
+        try:
+            r = {"add": lambda: a.c + b.c, "sub": lambda: a.c - b.c, "mul": lambda: a.c * b.c, "div": lambda: a.c / b.c}[kind]()
+        except ZeroDivisionError:
+            return SymReal(Fraction(0), z3.BoolVal(True))
+        if r != r:
+            return SymReal(Fraction(0), z3.BoolVal(True))
+        return SymReal(r if r in (float("inf"), float("-inf")) else Fraction(r), u)
+    # one operand symbolic (finite real), the other infinite
+    if kind == "add":
+        return SymReal(a.c if a.is_inf else b.c, u)
+    if kind == "sub":
+        return SymReal(a.c if a.is_inf else -b.c, u)
+    if kind == "div" and b.is_inf:
+        return SymReal(Fraction(0), u)
+    raise UnmodelledDependency(f"{kind} of a symbolic value with infinity at " + _caller_site())
 
 
 numbers.Real.register(SymReal)
@@ -1017,8 +1052,6 @@ def to_symarray(x):
                 out[idx] = e
             elif isinstance(e, (float, _np.floating)) and (e != e):
                 out[idx] = NAN
-            elif isinstance(e, (float, _np.floating)) and e in (float("inf"), float("-inf")):
-                raise UnmodelledDependency("infinite value inside symbolic array")
             elif isinstance(e, (int, float, Fraction, _np.number, bool, _np.bool_)):
                 out[idx] = SymReal(e)
             elif e is None:
@@ -1030,8 +1063,6 @@ def to_symarray(x):
         if not _np.all(_np.isfinite(a)):
             if _np.all(_np.isinf(a)):
                 return a  # whole-array +-inf bounds stay native
-            if _np.any(_np.isinf(a)):
-                raise UnmodelledDependency("mixed finite/infinite float array")
         out = _np.empty(a.shape, dtype=object)
         for idx in _np.ndindex(a.shape):
             e = a[idx]
